@@ -11,6 +11,7 @@ import (
 	"verif/internal/gen"
 	"verif/internal/ref"
 	"verif/internal/run"
+	"verif/internal/zoo"
 )
 
 func init() {
@@ -134,5 +135,81 @@ func runC11(c *run.Ctx) {
 			c.Sample(map[string]interface{}{"document": ec.Text, "history": hist})
 		}
 	}
+	// histories over the reflection schema with methods, including requests that are invalid (undeclared, missing or
+	// mistyped arguments, unknown fields): the answer to an invalid request must be repeatable too
+	m := c.N(400, 12000)
+	for i := 0; i < m && !c.TooMany(); i++ {
+		r := c.Rand(500000 + i)
+		root, _, err := zoo.NewRoot()
+		if err != nil {
+			c.Violation("c11-zoo-schema", map[string]interface{}{"error": err.Error()})
+			return
+		}
+		var text string
+		if r.Intn(2) == 0 {
+			text = zoo.Requests[r.Intn(len(zoo.Requests))].Text
+		} else {
+			text = c03ZooAdversarial[r.Intn(len(c03ZooAdversarial))]
+		}
+		if r.Intn(3) == 0 {
+			text = "query A { name items { label(prefix: \"p\", upper: true, bogus: 1) id } }\nquery B { hello(name: \"x\") add(a: 1, b: 2) }\n" +
+				"query C($n: String) { hello(name: $n) items { label(prefix: $n) } }"
+		}
+		exe, perr := root.ParseExecutableString(text)
+		if perr != nil || exe == nil {
+			continue
+		}
+		printed0 := exeCanonText(exe)
+		var hist []map[string]interface{}
+		ops := []string{""}
+		for name := range exe.Ops {
+			ops = append(ops, name)
+		}
+		sort.Strings(ops)
+		for j, k := 0, 2+r.Intn(4); j < k; j++ {
+			op := ops[r.Intn(len(ops))]
+			vars := map[string]interface{}{}
+			for _, vn := range []string{"n", "s", "a", "x"} {
+				if r.Intn(2) == 0 {
+					vars[vn] = []interface{}{"str", true, float64(r.Intn(5)), nil}[r.Intn(4)]
+				}
+			}
+			hist = append(hist, map[string]interface{}{"op": op, "vars": vars})
+			got := resolveZoo(root, exe, op, vars)
+			fresh, ferr := root.ParseExecutableString(text)
+			if ferr != nil {
+				break
+			}
+			want := resolveZoo(root, fresh, op, vars)
+			steps++
+			c.Count("zoo_calls_compared", 1)
+			if got != want {
+				c.Violation("c11-stale", map[string]interface{}{"backend": "reflection (zoo)", "document": text, "history": hist, "step": j, "reused_executable": got, "fresh_parse": want})
+				break
+			}
+			if p := exeCanonText(exe); p != printed0 {
+				c.Violation("c11-printed-form-changed", map[string]interface{}{"backend": "reflection (zoo)", "document": text, "history": hist, "step": j, "before": printed0, "after": p})
+				break
+			}
+		}
+		c.Eval("zoo|"+text+fmt.Sprint(hist), true)
+	}
 	c.Set("resolve_calls_compared", steps)
+}
+
+func resolveZoo(root *ggql.Root, exe *ggql.Executable, op string, vars map[string]interface{}) string {
+	var res map[string]interface{}
+	var err error
+	pv, _ := run.Protect(func() { res, err = root.ResolveExecutable(exe, op, copyVars(vars)) })
+	out := fmt.Sprintf("panic=%v data=", pv)
+	if res != nil {
+		out += ref.Render(ref.Canon(res["data"]))
+	}
+	if err != nil {
+		for _, e := range ggql.FormErrorsResult(err) {
+			em, _ := e.(map[string]interface{})
+			out += fmt.Sprintf(" |%v@%v", em["message"], em["path"])
+		}
+	}
+	return out
 }
